@@ -333,10 +333,34 @@ def run_shard(args):
     name, hs = args
     jp = os.path.join(CACHE, "jobs", name + ".json")
     out = os.path.join(CACHE, "jobs", name + ".ndjson")
-    json.dump({"out": out, "scratch": os.path.join(CACHE, "scratch"), "histories": hs}, open(jp, "w"))
-    rc, o = run(["timeout", "-k", "2", "1500", ZV, "incr", jp], timeout=1600)
-    if rc != 0:
-        return {"name": name, "error": "zv incr rc=%d: %s" % (rc, o[-1500:])}
+    # a death of the harness process (abort in the allocator, stack overflow, ...) while it executes zinoma's code is data:
+    # the operation that was running is recorded as 'panic' and the remaining histories go to a fresh process
+    todo = list(hs)
+    all_lines = []
+    deaths = 0
+    while todo:
+        json.dump({"out": out, "scratch": os.path.join(CACHE, "scratch"), "histories": todo}, open(jp, "w"))
+        rc, o = run(["timeout", "-k", "2", "1500", ZV, "incr", jp], timeout=1600)
+        got = [json.loads(l) for l in open(out)] if os.path.exists(out) else []
+        if rc == 0:
+            all_lines += got
+            break
+        deaths += 1
+        if rc == 124 or deaths > 20 or not got:
+            return {"name": name, "error": "zv incr rc=%d: %s" % (rc, o[-1500:])}
+        starts_ = [i for i, e in enumerate(got) if e["e"] == "hist"]
+        last = got[starts_[-1]:]
+        hid = last[0]["id"]
+        k = next(i for i, h in enumerate(todo) if h["id"] == hid)
+        done_ops = len(last) - 1
+        op = todo[k]["ops"][done_ops] if done_ops < len(todo[k]["ops"]) else None
+        all_lines += got
+        if op is not None and op["op"] == "invoke":
+            all_lines.append({"e": "invoke", "k": done_ops, "m": op["m"], "decision": "none", "result": "panic"})
+        todo = todo[k + 1:]
+    with open(out, "w") as f:
+        for l in all_lines:
+            f.write(json.dumps(l) + "\n")
     # 'flip' corruptions: whether the flipped record still decodes is not something the model knows; the history is
     # cut right after the flip's following invocation is made non-constraining -> we simply drop histories with flips
     lines = [json.loads(l) for l in open(out)]
